@@ -27,6 +27,12 @@ pub struct Env {
     pub term: Option<String>,
     pub no_color: bool,
     pub columns: Option<u32>,
+    /// Extra environment variables (HOME, USER, RUST_BACKTRACE, ...).
+    #[serde(default)]
+    pub extra_vars: Vec<(String, String)>,
+    /// Run from another working directory (inputs are always named by absolute path).
+    #[serde(default)]
+    pub other_cwd: bool,
     /// Deliver stdin in chunks of this size (only for commands that read stdin).
     pub stdin_chunk: usize,
 }
@@ -50,6 +56,8 @@ impl Env {
             term: None,
             no_color: false,
             columns: None,
+            extra_vars: vec![],
+            other_cwd: false,
             stdin_chunk: 1 << 20,
         }
     }
@@ -72,6 +80,27 @@ impl Env {
             term: rng.pick(&[None, Some("dumb"), Some("xterm-256color")]).map(str::to_string),
             no_color: rng.pct(30),
             columns: *rng.pick(&[None, Some(20u32), Some(80), Some(400)]),
+            extra_vars: {
+                let pool: &[(&str, &[&str])] = &[
+                    ("HOME", &["/root", "/tmp", "/home/üser"]),
+                    ("USER", &["root", "nobody"]),
+                    ("LOGNAME", &["alice"]),
+                    ("RUST_LOG", &["trace", "off"]),
+                    ("CLICOLOR_FORCE", &["1"]),
+                    ("RAYON_NUM_THREADS", &["1", "7"]),
+                    ("TMPDIR", &["/tmp", "/dev/shm"]),
+                    ("SOURCE_DATE_EPOCH", &["0", "1700000000"]),
+                    ("HOSTNAME", &["a", "b.example.org"]),
+                ];
+                let mut v = vec![];
+                for (k, vals) in pool {
+                    if rng.pct(30) {
+                        v.push((k.to_string(), rng.pick(vals).to_string()));
+                    }
+                }
+                v
+            },
+            other_cwd: rng.pct(30),
             stdin_chunk: *rng.pick(&[1usize, 3, 64, 4096, 1 << 20]),
         }
     }
@@ -94,6 +123,8 @@ impl Env {
             "heap_pad" => e.heap_pad = 0,
             "aslr" => e.aslr_off = false,
             "stack_pad" => e.stack_pad = 0,
+            "extra_vars" => e.extra_vars.clear(),
+            "cwd" => e.other_cwd = false,
             "locale" => {
                 e.locale = None;
                 e.tz = None;
@@ -110,7 +141,7 @@ impl Env {
         e
     }
 
-    pub const DIMS: &'static [&'static str] = &["hash_seed", "dir_order", "cpus", "clock", "heap_pad", "aslr", "stack_pad", "locale", "stdin_chunk"];
+    pub const DIMS: &'static [&'static str] = &["hash_seed", "dir_order", "cpus", "clock", "heap_pad", "aslr", "stack_pad", "locale", "extra_vars", "cwd", "stdin_chunk"];
 }
 
 #[derive(Clone, Debug, PartialEq, Eq)]
@@ -191,6 +222,12 @@ pub fn run_anthem(bins: &Binaries, args: &[String], cwd: &Path, stdin: Option<&[
     }
     if let Some(c) = env.columns {
         cmd.env("COLUMNS", c.to_string());
+    }
+    for (k, v) in &env.extra_vars {
+        cmd.env(k, v);
+    }
+    if env.other_cwd {
+        cmd.current_dir("/");
     }
     for (k, v) in extra_env {
         cmd.env(k, v);
